@@ -56,7 +56,7 @@ struct Hist { int pre = 0; int post = 0; };
 // returns "" or failure text
 static std::string run_one(const Bytes &file, const Bytes &good, size_t flip_off, const Bytes &D, size_t bad_start, size_t bad_len, bool bad_is_dict, const Bytes &orig_plain, const Bytes &corrupt_plain,
                            const std::vector<size_t> &sizes, const Hist &hs, std::string *sig, bool *saw_error) {
-    bool late_damage = (hs.pre == 2 || hs.pre == 3) && flip_off != (size_t)-1;
+    bool late_damage = (hs.pre == 2 || hs.pre == 3 || hs.pre == 4) && flip_off != (size_t)-1;
     int fd = lib::mkfd(late_damage ? good : file); zckCtx *z = zck_create(); std::string out;
     if (!zck_init_read(z, fd)) { zck_free(&z); close(fd); *saw_error = true; return out; }   // refusing to open is a clean error
     zckCtx *src = nullptr; int sfd = -1;
@@ -65,10 +65,16 @@ static std::string run_one(const Bytes &file, const Bytes &good, size_t flip_off
         if (zck_init_read(src, sfd)) zck_find_matching_chunks(src, z);
         zck_clear_error(z);
     } else if (late_damage) {
-        int v = hs.pre == 2 ? zck_validate_checksums(z) : (int)zck_find_valid_chunks(z);
+        int v = hs.pre == 2 ? zck_validate_checksums(z) : hs.pre == 3 ? (int)zck_find_valid_chunks(z) : zck_validate_data_checksum(z);
         if (v != 1) { *sig = "intact-file-not-valid"; out = "validity scan of the intact file returned " + std::to_string(v); }
         uint8_t b = file[flip_off];
         if (pwrite(fd, &b, 1, flip_off) != 1) abort();
+    }
+    else if (hs.pre >= 2) {
+        // the file is already the altered one (index checksum changed, body intact): a validation first - whatever it answers, and
+        // the whole-data checksum does still match - then the read; the error a failed validation leaves behind is cleared
+        int v = hs.pre == 2 ? zck_validate_checksums(z) : hs.pre == 3 ? (int)zck_find_valid_chunks(z) : zck_validate_data_checksum(z); (void)v;
+        if (zck_is_error(z) && !zck_clear_error(z)) { zck_free(&z); close(fd); *saw_error = true; return out; }
     }
     Bytes got; std::vector<char> buf; size_t k = 0; bool errored = false; int after = 0;
     for (int guard = 0; out.empty() && guard < 200000; guard++) {
@@ -127,9 +133,9 @@ static void prop(Ctx &c) {
     }
     if (large) for (auto &x : sizes) if (x < 512) x = 4096;          // tiny reads of a large file are quadratic in the library
     bool small_read = false; for (auto s : sizes) if (s < plen) small_read = true;
-    Hist hs; { uint64_t a = c.draw(5); hs.pre = a <= 2 ? 0 : (int)a - 2; hs.post = (int)c.draw(2); }
+    Hist hs; { uint64_t a = c.draw(c.gver >= 4 ? 6 : 5); hs.pre = a <= 2 ? 0 : (int)a - 2; hs.post = (int)c.draw(2); }
     if (bad == 0 && hs.pre >= 2) hs.pre = 1;   // the dictionary is decoded once, at open: damaging it afterwards is not "reading a chunk whose stored bytes do not match"
-    static const char *pren[] = {"none", "match-against-good-copy", "validate_checksums-then-damage", "find_valid_chunks-then-damage"}, *postn[] = {"keep-reading", "clear_error+reads", "clear_error+small-reads"};
+    static const char *pren[] = {"none", "match-against-good-copy", "validate_checksums-then-damage", "find_valid_chunks-then-damage", "validate_data_checksum-then-damage"}, *postn[] = {"keep-reading", "clear_error+reads", "clear_error+small-reads"};
     c.desc << z.desc << " bad-chunk=" << bad << (bad == 0 ? "(dict)" : bad == n - 1 ? "(last)" : bad == 1 ? "(first)" : "(middle)") << " reads=" << gen::sizes_str(sizes) << " before=" << pren[hs.pre] << " after-error=" << postn[hs.post];
     c.label(std::string("pre=") + pren[hs.pre]); c.label(std::string("post=") + postn[hs.post]);
     c.label(bad == 0 ? "bad=dict" : bad == n - 1 ? "bad=last" : bad == 1 ? "bad=first" : "bad=middle"); if (small_read) c.label("read<chunk");
@@ -165,6 +171,25 @@ static void prop(Ctx &c) {
             if (!e.empty()) { c.extra_evals = evals; c.fail(sig, e + " [index digest of chunk " + std::to_string(bad) + " altered, header re-sealed]"); }
             if (!saw_error) { c.extra_evals = evals; c.fail("no-error", "every read succeeded although the index digest of chunk " + std::to_string(bad) + " was altered"); }
             c.label("digest-variant");
+        }
+    }
+    // the chunk-access route: zck_get_chunk_data() is a read call too.  Asked for the bad chunk (on the full file, and - for the
+    // dictionary - on a detached header, which holds nothing but header + dictionary chunk) it must not hand out decompressed bytes.
+    if (c.gver >= 4) {
+        std::vector<std::pair<size_t, int>> some; for (size_t t = 0; t < 24 && t < flips.size(); t++) some.push_back(flips[(t * 2654435761u + bad) % flips.size()]);
+        for (int detached = 0; detached < 2; detached++) {
+            if (detached && (bad != 0 || !has_dict)) continue;
+            for (auto &fl : some) {
+                Bytes g = z.file; if (detached) { g.resize(z.h.total_size + z.clen(0)); memcpy(g.data(), "\0ZHR1", 5); }
+                g[off + fl.first] ^= (uint8_t)(1u << fl.second); Bytes cp; if (!try_decode(g.data() + off, cl, bad == 0 ? nullptr : &dictb, cp)) continue;      // flips zstd refuses cannot release anything
+                int fd = lib::mkfd(g); zckCtx *zc = zck_create(); evals++;
+                if (zck_init_read(zc, fd)) { zckChunk *ch = zck_get_chunk(zc, bad); std::vector<char> b(plen + 1);
+                    for (int rep = 0; rep < 2 && ch; rep++) { ssize_t r = zck_get_chunk_data(ch, b.data(), plen);
+                        if (r > 0) { zck_free(&zc); close(fd); c.extra_evals = evals; c.fail("released-bad-chunk", std::string("zck_get_chunk_data(chunk ") + std::to_string(bad) + ")" + (detached ? " on the detached header" : "") + " returned " + std::to_string(r) + " bytes although the chunk's stored bytes do not match its checksum [flip byte " + std::to_string(fl.first) + " bit " + std::to_string(fl.second) + ", still decodes" + (rep ? ", second request" : "") + "]"); }
+                        if (r < 0) (void)!zck_clear_error(zc); } }
+                zck_free(&zc); close(fd);
+            }
+            c.label(detached ? "chunk-access:detached-header" : "chunk-access");
         }
     }
     c.desc << " flips=" << evals << " still-decoding=" << decodes;
